@@ -756,6 +756,28 @@ func registerIntercepts(e *Engine) {
 		}
 		return one(st, Tuple{Slice{}, c.E.newError(st, "open "+p+": no such file or directory")})
 	})
+	// os.WriteFile / natefinch atomic.WriteFile (RealFileIO harnesses): the file then holds that text
+	e.reg("os.WriteFile", func(c *CallCtx, st *State, args []Value) []Outcome {
+		p, _ := strArg(args[0])
+		cell := c.E.namedCell(st, "text:"+p, func() Value { return Str{} })
+		st.heap[cell] = Str{S: c.E.bytesToString(st, args[1], "os.WriteFile data")}
+		return one(st, nilErr)
+	})
+	e.reg("github.com/natefinch/atomic.WriteFile", func(c *CallCtx, st *State, args []Value) []Outcome {
+		p, _ := strArg(args[0])
+		iv, ok := args[1].(Iface)
+		if !ok || iv.T == nil || iv.T.String() != "*strings.Reader" {
+			c.E.abort("atomic.WriteFile: only a *strings.Reader source is modelled")
+		}
+		rd := st.Load(iv.V.(Ptr)).(*StructV)
+		txt, ok := strArg(rd.F[0])
+		if !ok {
+			c.E.abort("atomic.WriteFile: symbolic text is not modelled")
+		}
+		cell := c.E.namedCell(st, "text:"+p, func() Value { return Str{} })
+		st.heap[cell] = Str{S: txt}
+		return one(st, nilErr)
+	})
 	// fmt.Sscanf on a concrete string with %d verbs into *int arguments
 	e.reg("fmt.Sscanf", func(c *CallCtx, st *State, args []Value) []Outcome {
 		str, ok1 := strArg(args[0])
